@@ -39,7 +39,16 @@ func memAccess(site int, p any, write, atomic bool) {
 	if s == nil || !s.MemOn {
 		return
 	}
-	addr := reflect.ValueOf(p).Pointer()
+	rv := reflect.ValueOf(p)
+	switch rv.Kind() {
+	case reflect.Map, reflect.Pointer, reflect.Slice, reflect.Chan, reflect.Func, reflect.UnsafePointer:
+	default:
+		return
+	}
+	addr := rv.Pointer()
+	if addr == 0 {
+		return
+	}
 	t := s.me(site)
 	s.mu.Lock()
 	defer s.mu.Unlock()
